@@ -35,8 +35,21 @@ def events_for(rows):
     # the gate list of the inverse circuit is passed along as context: every tableau construction below is built from it,
     # and the spec uses it to attribute a failure to the synthesis (known finding) rather than to the construction
     ctx_gates = sg.gate_list_obs(circ) if circ is not None else []
-    for name, f in (("clifford_from_stabilizer", lambda: clifford_from_stabilizer(st.copy())),
-                    ("CliffordTableau(StabilizerTableau)", lambda: CliffordTableau(st.copy()))):
+    from graphiq.backends.stabilizer.state import Stabilizer
+
+    def via_state_object():
+        s_obj = Stabilizer(st.n_qubits)
+        s_obj.apply_circuit(list(circ), reverse=True)
+        return s_obj.tableau
+    extra = []
+    if sum(r["s"] + sum(r["p"]) for r in rows) % 4 == 0:       # the further routes on about a quarter of the inputs
+        extra = [("CliffordTableau(CliffordTableau(StabilizerTableau))", lambda: CliffordTableau(CliffordTableau(st.copy()))),
+                 ("clifford_from_stabilizer(...).to_stabilizer() again", lambda: clifford_from_stabilizer(
+                     clifford_from_stabilizer(st.copy()).to_stabilizer()))]
+        if circ is not None:
+            extra.append(("Stabilizer(n).apply_circuit(reverse=True)", via_state_object))
+    for name, f in [("clifford_from_stabilizer", lambda: clifford_from_stabilizer(st.copy())),
+                    ("CliffordTableau(StabilizerTableau)", lambda: CliffordTableau(st.copy()))] + extra:
         try:
             evs.append({"fn": "to_clifford", "via": name, "a": 1, "ctx_gates": ctx_gates, "out": pj.tab_obs(f())})
         except Exception as ex:
